@@ -242,6 +242,25 @@ let handle (toks : String.t list) : String.t =
      | Err e -> "err " ^ err_name e
      | Ok ks -> let k = ks.(Array.length ks - 1) in
        Printf.sprintf "ok cells=%d visits=%d" (List.length (order k)) (int_of_nat (order_visits k)))
+  | "heap" :: ops ->
+    let ni x = nat_of_int (int_of_string x) in
+    let parse t = (match colon t with
+        | ["nb"] -> OpNewBuilder | ["ec"] -> OpEmptyCell
+        | ["sb"; b; l] -> OpStoreBits (ni b, bits_of_str l) | ["sr"; b; c] -> OpStoreRef (ni b, ni c)
+        | ["sc"; b; c] -> OpStoreCell (ni b, ni c) | ["ss"; b; s] -> OpStoreSlice (ni b, ni s)
+        | ["end"; b] -> OpEndCell (ni b) | ["b2s"; b] -> OpBuilderToSlice (ni b) | ["bp"; c] -> OpBeginParse (ni c)
+        | ["cp"; c] -> OpCellCopy (ni c) | ["tb"; c] -> OpToBuilder (ni c) | ["lb"; s; n] -> OpLoadBits (ni s, ni n)
+        | ["lr"; s] -> OpLoadRef (ni s) | ["s2c"; s] -> OpSliceToCell (ni s) | ["scp"; s] -> OpSliceCopy (ni s)
+        | ["s2b"; s] -> OpSliceToBuilder (ni s) | ["rd"; c] -> OpRead (ni c)
+        | _ -> failwith "heapop") in
+    let h = run_ops (List.map parse ops) in
+    let n = List.length h.objs in
+    let show i = (match obj_view h (nat_of_int i) with
+        | VCell (b, r) -> "C" ^ str_of_bits b ^ "/" ^ commas (fun x -> string_of_int (int_of_nat x)) r
+        | VSlice (b, r) -> "S" ^ str_of_bits b ^ "/" ^ commas (fun x -> string_of_int (int_of_nat x)) r
+        | VBuilder (b, r) -> "B" ^ str_of_bits b ^ "/" ^ commas (fun x -> string_of_int (int_of_nat x)) r
+        | VNothing -> "?") in
+    "ok " ^ String.concat " " (List.init n show)
   | "senc" :: rest ->
     let (ns, ops) = parse_dag rest in
     let trees = tree_of_dag ns in
